@@ -25,9 +25,11 @@ instance (m out : MeshVal α) : Decidable (SameFrame m out) := by unfold SameFra
 section
 variable [DecidableEq α]
 
-/-- Unweld: same corners in the same order, identity indices, nothing else touched. -/
+/-- Unweld: same corners in the same order, identity indices, exactly one vertex per index (no extra,
+    unreferenced vertex), nothing else touched. -/
 def UnweldSpec (m out : MeshVal α) : Prop :=
-  SameFrame m out ∧ out.indices = List.range m.indices.length ∧ out.corners = m.corners
+  SameFrame m out ∧ out.indices = List.range m.indices.length ∧ out.attrLen = m.indices.length ∧
+  out.corners = m.corners
 instance (m out : MeshVal α) : Decidable (UnweldSpec m out) := by unfold UnweldSpec; infer_instance
 
 /-- RemovedUnreferencedVertices: same corners in the same order (attribute arrays that end up
